@@ -261,6 +261,17 @@ fn check(c: &Case, py: bool) -> CaseResult {
         broken.truncate(keep.max(1));
         let _ = guarded("decompress_all", || util::decompress_all(codec::to_lib(c.codec), &broken))?;
     }
+    // the one-shot helpers are called on a sibling payload first (same length, one byte in the middle differs):
+    // nothing of that call may show in the result for the payload under test
+    if d.len() >= 3 {
+        let mut sib = d.clone();
+        let m = sib.len() / 2;
+        sib[m] ^= 0x5a;
+        if let Ok(cs) = guarded("compress_all", || util::compress_all(codec::to_lib(c.codec), &sib))? {
+            let back = guarded("decompress_all", || util::decompress_all(codec::to_lib(c.codec), &cs))?.map_err(|e| Fail::new(format!("C14/err/decompress_all/{cn}"), format!("sibling payload: {e}")))?;
+            ensure!(back == sib, format!("C14/roundtrip-differs/compress_all->decompress_all/{cn}/sibling"), "{}", same(&back, &sib));
+        }
+    }
     // encoders
     let one = guarded("compress_all", || util::compress_all(codec::to_lib(c.codec), &d))?.map_err(|e| Fail::new(format!("C14/err/compress_all/{cn}"), format!("{e}")))?;
     let (ss, nw) = e("compress(streaming)", guarded("compress", || stream_compress_sync(c.codec, &d, &c.wsplit, &c.ssplit, c.flush_every))?)?;
@@ -312,6 +323,13 @@ fn check_unknown(_: &u8) -> CaseResult {
     let d = b"some bytes".to_vec();
     ensure!(guarded("compress_all", || util::compress_all(u, &d))?.is_err(), "C14/unknown-accepted/compress_all", "compress_all(Unknown) returned Ok");
     ensure!(guarded("decompress_all", || util::decompress_all(u, &d))?.is_err(), "C14/unknown-accepted/decompress_all", "decompress_all(Unknown) returned Ok");
+    // ... also when the payload really is a compressed stream of one of the codecs
+    for cc in 1u8..=4 {
+        let real = codec::compress(cc, &d.repeat(40), codec::Params { level: 6, flag: 0 });
+        ensure!(guarded("decompress_all", || util::decompress_all(u, &real))?.is_err(), format!("C14/unknown-accepted/decompress_all/{}-payload", codec::name(cc)), "decompress_all(Unknown) returned Ok for a {} stream", codec::name(cc));
+        let mut cur = std::io::Cursor::new(&real[..]);
+        ensure!(guarded("decompress", || util::decompress(u, &mut cur).is_err())?, format!("C14/unknown-accepted/decompress/{}-payload", codec::name(cc)), "decompress(Unknown) returned Ok for a {} stream", codec::name(cc));
+    }
     let mut out = Vec::new();
     ensure!(guarded("compress", || util::compress(u, &mut out).is_err())?, "C14/unknown-accepted/compress", "compress(Unknown) returned Ok");
     let mut cur = std::io::Cursor::new(&d[..]);
